@@ -7,6 +7,8 @@ the opposite direction in M.  While L is in msb0 the two must agree verbatim.  D
 """
 from __future__ import annotations
 
+import io
+
 from .. import kernel, loader
 from ..kernel import Engine, call, canon, safe_bin
 
@@ -25,10 +27,10 @@ MUTABLE = ('BitArray', 'BitStream')
 STREAM = ('ConstBitStream', 'BitStream')
 
 READ_OPS = ('getitem', 'getslice', 'find', 'rfind', 'findall', 'startswith', 'endswith', 'cut', 'count', 'all', 'any',
-            'lshift', 'rshift', 'unpack', 'whole', 'pack', 'contains', 'iter')
+            'lshift', 'rshift', 'unpack', 'whole', 'pack', 'contains', 'iter', 'pp')
 STREAM_OPS = ('read', 'peek', 'readlist', 'setpos')
 MUT_OPS = ('setitem', 'setslice', 'setslice_int', 'delitem', 'delslice', 'set', 'invert', 'insert', 'overwrite',
-           'append', 'prepend', 'iadd', 'reverse', 'byteswap', 'replace', 'ilshift', 'irshift', 'rol', 'ror', 'lazy_then')
+           'append', 'prepend', 'iadd', 'reverse', 'byteswap', 'replace', 'ilshift', 'irshift', 'rol', 'ror', 'lazy_then', 'iter_then')
 
 
 def rev(s):
@@ -201,6 +203,11 @@ class ELsb0(Engine):
                 ev['pos'] = [g.pos(n, 1) if g.chance(0.15) else (g.int(-n, n - 1) if n else 0) for _ in range(g.int(0, 5))]
             elif how == 'range':
                 ev['pos'] = [g.int(0, n), g.int(0, n + 1), g.pick([1, 1, 2, 3])]
+        elif op == 'iter_then':
+            # iteration in progress, a bit further on is written in place, iteration goes on: item k is x[k] when it is reached
+            ev.update(take=g.int(0, min(n, 6)), idx=g.pos(n), how=g.pick(['setitem', 'invert', 'set', 'setslice']), value=g.pick([0, 1]))
+        elif op == 'pp':
+            ev.update(fmt=g.pick([None, 'bin', 'hex', 'bin, hex', 'uint:8', 'bits:3']), array=g.chance(0.5), width=g.pick([120, 40, 12]))
         elif op == 'lazy_then':
             # a findall / cut generator is made, the object is changed before the first item is asked for, then the
             # generator is consumed: a lazy result is set up on first use in msb0, so its lsb0 counterpart must be too
@@ -285,6 +292,8 @@ class ELsb0(Engine):
                 toks.append([kind, w, g.bits(w)])
             ev['toks'] = toks
             self._last_pack = toks
+        if op == 'pack' and len(ev.get('toks', [])) >= 2 and g.chance(0.3):
+            ev['split'] = g.int(1, len(ev['toks']) - 1)
         return ev
 
     # -------------------------------------------------------------------------------------------------
@@ -384,6 +393,32 @@ class ELsb0(Engine):
             else:
                 x.invert()
             return list(gen)
+        if op == 'iter_then':
+            it = iter(x)
+            out = [bool(v) for _, v in zip(range(max(int(g('take', 0)), 0)), it)]
+            n_ = len(x)
+            if n_:
+                i_ = int(g('idx', 0)) % n_
+                how = g('how')
+                if how == 'invert':
+                    x.invert(i_)
+                elif how == 'set':
+                    x.set(bool(g('value', 1)), i_)
+                elif how == 'setslice':
+                    x[i_:i_ + 1] = '0b1' if g('value', 1) else '0b0'
+                else:
+                    x[i_] = bool(g('value', 1))
+            out.extend(bool(v) for _, v in zip(range(400), it))
+            return out
+        if op == 'pp':
+            # pretty-printing (of the bitstring, or of an Array over a copy of its bits) is a reader: it leaves the module options alone
+            out_ = io.StringIO()
+            if g('array'):
+                a_ = B.Array('uint8', B.BitArray(x) if len(x) else None)
+                a_.pp(g('fmt') if g('fmt') in ('bin', 'hex', 'uint:8') else None, int(g('width', 120)), True, out_)
+            else:
+                x.pp(g('fmt'), int(g('width', 120)), ' ', True, out_)
+            return len(out_.getvalue()) > 0
         if op == 'iter':
             # iteration goes by position: item k is x[k] in the mode in force
             return [bool(v) for _, v in zip(range(400), x)]
@@ -476,6 +511,10 @@ class ELsb0(Engine):
                 else:
                     fmt.append(f'bits:{len(bits)}')
                     vals.append(B.Bits(bin=bits))
+            cutp = g('split')
+            if isinstance(cutp, int) and not isinstance(cutp, bool) and 0 < cutp < len(fmt):
+                # the same tokens handed over as a list of two format strings
+                return B.pack([', '.join(fmt[:cutp]), ', '.join(fmt[cutp:])], *vals, **kw)
             return B.pack(', '.join(fmt), *vals, **kw)
         if op == 'whole':
             return self._whole(x)
@@ -613,6 +652,12 @@ class ELsb0(Engine):
         if cls in STREAM and (kernel.get_pos(xl) if kernel.is_stream(xl) else 0) != (kernel.get_pos(xm) if kernel.is_stream(xm) else 0):
             if not bad:
                 incs.append(self.inc(f'{op}|{mode}|{trig}|pos-mismatch', event=ev, content=before_l[:120], lsb0_pos=kernel.get_pos(xl), mirror_pos=kernel.get_pos(xm)))
+            bad = True
+        # the option is what the last toggle left (no call switches the bit numbering behind the caller's back)
+        if bool(self.L.pkg.options.lsb0) != self.lsb0 or bool(self.M.pkg.options.lsb0):
+            incs.append(self.inc(f'{op}|{mode}|{trig}|option-lsb0-changed-by-the-call', event=ev, now=[bool(self.L.pkg.options.lsb0), bool(self.M.pkg.options.lsb0)], expected=[self.lsb0, False]))
+            self.L.pkg.options.lsb0 = self.lsb0
+            self.M.pkg.options.lsb0 = False
             bad = True
         if bad:
             # resynchronise the oracle side from the subject
